@@ -30,6 +30,14 @@
 //!     identical positions; both go through the real parser and linter, the driver evaluates
 //!     `ConstProg.matchP` on the two linted trees (`const.inlprog`) and `Ref.run` on the named one; the real
 //!     interpreter must give the same for both texts (error positions included).
+//! (d) the same tie for the procedures layer (`proc_pair`, theorem `const_inline_run_proc`): per scenario a program
+//!     with SUBs and FUNCTIONs (by-value and by-reference parameters, a STATIC SUB, nested calls, EXIT FUNCTION) that
+//!     uses the global constants in the main module, in argument lists (SUB calls, FUNCTION calls inside expressions
+//!     and PRINT lists, nested calls) and inside the procedure bodies, and the SUB-level constants inside a SUB; named
+//!     and inlined text with identical positions; both real linted trees are serialised by `proc_sx` and the driver
+//!     (`const.inlproc`) evaluates `ConstProc.matchP`, the premise `progWfB` of `Proc.compile_correct` on both trees
+//!     and the agreement of the two `Proc.Ref` runs; `proc.ref` on each tree must give what the real interpreter
+//!     gives for that text, and the real interpreter must give the same for both texts.
 //! (b) implementation vs property, through `run_in_memory`: the named program (CONST lines, uses by
 //!     name) against the inlined program (every use of an accepted constant whose stored value is the
 //!     folded one replaced by `(e)`, recursively; a constant with a converting suffix is compared with
@@ -1235,12 +1243,22 @@ fn main() {
         uses(&mut rep, &mut asks, &sc, &mut rng);
         metamorphic(&mut rep, &sc);
         core_pair(&mut rep, &mut asks, &sc);
+        proc_pair(&mut rep, &mut asks, &sc);
     }
 
     // ask the model
     let answers = ask(&asks.iter().map(|a| a.request.clone()).collect::<Vec<_>>());
     let mut inexact = 0u64;
     for (a, ans) in asks.iter().zip(answers.iter()) {
+        if a.signature == "inlproc:match" {
+            // `(<match> <wf named> <wf inlined> <agreement>)`: how often the theorem's hypotheses were evaluated to true
+            let f: Vec<&str> = ans.trim_matches(|c| c == '(' || c == ')').split_whitespace().collect();
+            if f.len() == 4 {
+                rep.bump(&format!("proc-pair.trees-match.{}", f[0]));
+                rep.bump(&format!("proc-pair.premise-progWfB.{}{}", f[1], f[2]));
+                rep.bump(&format!("proc-pair.ref-runs.{}", f[3]));
+            }
+        }
         if ans == "inexact" {
             inexact += 1;
             continue;
@@ -1712,4 +1730,177 @@ fn core_pair(rep: &mut Report, asks: &mut Vec<Ask>, sc: &Scenario) {
         signature: "inlprog:ref".into(),
         input,
     });
+}
+
+/// The linted tree of a program with procedures as `RbModel.Proc.Syntax` reads it (`proc_sx`; a `CONST` statement
+/// becomes `comment`), or None if rejected / outside the procedures layer.
+fn proc_ast(text: &str) -> Option<String> {
+    rb_harness::proc_sx::src_and_code(text).map(|(pp, _code)| pp.program)
+}
+
+/// fuel of the reference semantics for the named program, and the surplus `δ` of the inlined one
+const PROC_FUEL: u64 = 4000;
+const PROC_SLACK: u64 = 400;
+
+/// The tie of `const_inline_run_proc` (procedures layer): uses of constants inside SUB / FUNCTION bodies, in argument
+/// lists of SUB calls and of FUNCTION calls inside expressions, as by-value arguments next to by-reference ones.
+fn proc_pair(rep: &mut Report, asks: &mut Vec<Ask>, sc: &Scenario) {
+    let cands: Vec<(usize, &Decl)> = sc
+        .decls
+        .iter()
+        .enumerate()
+        .filter(|(_, d)| d.scope == Scope::Global && inlineable(d, &sc.decls) && d.inl_len <= 90)
+        .collect();
+    let nums: Vec<&(usize, &Decl)> = cands.iter().filter(|(_, d)| !matches!(d.value(), Some(Variant::VString(_)))).collect();
+    let strs: Vec<&(usize, &Decl)> = cands.iter().filter(|(_, d)| matches!(d.value(), Some(Variant::VString(_)))).collect();
+    if nums.is_empty() {
+        return;
+    }
+    // SUB-level constants (used inside SUB SUBT only): none if the textual inlining could capture a name
+    let capture = sc.accepted(Scope::Sub).iter().any(|l| {
+        sc.accepted(Scope::Global).iter().any(|g| g.name.eq_ignore_ascii_case(&l.name) && !inlineable(g, &sc.decls))
+    });
+    let locals: Vec<(usize, &Decl)> = if capture {
+        vec![]
+    } else {
+        sc.decls
+            .iter()
+            .enumerate()
+            .filter(|(_, d)| {
+                d.scope == Scope::Sub && inlineable(d, &sc.decls) && d.inl_len <= 90 && !matches!(d.value(), Some(Variant::VString(_)))
+            })
+            .collect()
+    };
+    let mut texts = vec![];
+    for mode in [Mode::Named, Mode::Inlined] {
+        // the use of a constant, both layouts equally long
+        let u = |c: &(usize, &Decl)| -> String {
+            let (i, d) = *c;
+            let named = match (i % 2 == 0, d.value().and_then(tag_of)) {
+                (true, Some(q)) => format!("{}{}", d.name, ty_char(q)),
+                _ => d.name.clone(),
+            };
+            let inl = format!("({})", render(&d.expr, Mode::Inlined, &sc.decls));
+            let w = named.len().max(inl.len());
+            format!("{:w$}", if mode == Mode::Named { named } else { inl }, w = w)
+        };
+        let n = |k: usize| u(nums[k % nums.len()]);
+        let mut t = String::new();
+        for d in sc.accepted(Scope::Global) {
+            t.push_str(&format!("CONST {} = {}\n", d.decl_name(), render(&d.expr, Mode::Named, &sc.decls)));
+        }
+        // main module: argument lists of FUNCTION calls inside expressions, of SUB calls (with and without CALL),
+        // by-value next to by-reference, nested calls, PRINT lists
+        t.push_str("A% = 1\n");
+        t.push_str(&format!("E# = F#({}, A%) + {}\nPRINT E#; A%\n", n(0), n(1)));
+        t.push_str(&format!("P {}, A%, ({})\nCALL P({}, A%, {})\nPRINT A%\n", n(1), n(2), n(0), n(2)));
+        t.push_str(&format!("PRINT G#({}) ; G#(F#({}, A%))\n", n(0), n(2)));
+        if let Some(sd) = strs.first() {
+            t.push_str(&format!("T$ = H$({})\nPRINT T$; H$({} + \"q\")\n", u(sd), u(sd)));
+        }
+        t.push_str(&format!("Q {}\nQ {}\nSUBT\n", n(2), n(0)));
+        // by-value conversion to INTEGER: may overflow (error 6 at the argument, in both programs)
+        t.push_str(&format!("R {}\nR {}\nPRINT \"end\"\n", n(0), n(1)));
+        // procedure bodies
+        t.push_str(&format!(
+            "SUB P (x#, y%, z#)\nIF x# > {} THEN\ny% = y% + 1\nELSE\ny% = y% - 1\nEND IF\nPRINT x# + {}; z#\n",
+            n(0), n(2)
+        ));
+        t.push_str(&format!("SELECT CASE {}\nCASE {}\nPRINT \"a\"\nCASE IS > {}\nPRINT \"b\"\nCASE ELSE\nPRINT \"c\"\nEND SELECT\n", n(1), n(1), n(0)));
+        t.push_str(&format!("Q {}\nFOR I% = 1 TO 2\nW# = W# + {}\nNEXT\nPRINT W#\nEND SUB\n", n(0), n(1)));
+        t.push_str(&format!("SUB Q (v#) STATIC\nV# = V# + v# + {}\nPRINT V#\nEND SUB\n", n(2)));
+        t.push_str("SUB R (i%)\nPRINT i%\nEND SUB\n");
+        t.push_str("SUB SUBT\n");
+        for d in sc.accepted(Scope::Sub) {
+            t.push_str(&format!("CONST {} = {}\n", d.decl_name(), render(&d.expr, Mode::Named, &sc.decls)));
+        }
+        for c in locals.iter().take(3) {
+            t.push_str(&format!("PRINT {} ; G#({})\n", u(c), u(c)));
+        }
+        t.push_str("PRINT \"t\"\nEND SUB\n");
+        t.push_str(&format!("FUNCTION F# (a#, b%)\nb% = b% + 1\nF# = a# * 2 + {}\nEND FUNCTION\n", n(1)));
+        t.push_str(&format!(
+            "FUNCTION G# (a#)\nIF a# = {} THEN\nG# = {}\nEXIT FUNCTION\nEND IF\nG# = a# - {}\nEND FUNCTION\n",
+            n(0), n(1), n(2)
+        ));
+        if let Some(sd) = strs.first() {
+            t.push_str(&format!("FUNCTION H$ (s$)\nH$ = s$ + {} + \"x\"\nEND FUNCTION\n", u(sd)));
+        }
+        texts.push(t);
+    }
+    rep.case(Some(texts[0].clone()));
+    rep.bump("proc-pair.programs");
+    if !locals.is_empty() {
+        rep.bump("proc-pair.with-sub-level-constants");
+    }
+    let on = rb_harness::refrun::run_real(&texts[0], b"", 2_000_000);
+    let oi = rb_harness::refrun::run_real(&texts[1], b"", 2_000_000);
+    rep.bump(&format!("proc-pair.real-outcome.{}", on.outcome.split(' ').next().unwrap_or("?")));
+    if std::env::var("VERIF_C14_SHOW").is_ok() && !on.outcome.starts_with("normal") {
+        eprintln!("=== {}\n{}", on.outcome, texts[0]);
+    }
+    if on.outcome == "budget" || oi.outcome == "budget" {
+        rep.bump("proc-pair.budget-exhausted");
+    } else if on != oi {
+        rep.fail(Failure {
+            kind: Kind::ImplVsProperty,
+            signature: "inlproc:run".into(),
+            input: format!("[named program]\n{}\n[inlined program]\n{}", texts[0], texts[1]),
+            implementation: format!("named: {} {:?}", on.outcome, String::from_utf8_lossy(&on.out)),
+            expected: format!("inlined: {} {:?}", oi.outcome, String::from_utf8_lossy(&oi.out)),
+            note: "same statements, same positions; uses of constants (main module, procedure bodies, argument lists) by name vs replaced by (e)".into(),
+        });
+    }
+    let (Some(an), Some(ai)) = (proc_ast(&texts[0]), proc_ast(&texts[1])) else {
+        rep.bump("proc-pair.outside-layer-or-rejected");
+        return;
+    };
+    rep.bump("proc-pair.serialised");
+    let input = format!("[named program]\n{}\n[inlined program]\n{}", texts[0], texts[1]);
+    asks.push(Ask {
+        request: format!("(const.inlproc {} {} {} {})", PROC_SLACK, PROC_FUEL, an, ai),
+        expect: Box::new(|a| {
+            // `(<match> <wf named> <wf inlined> <agreement of the two Proc.Ref runs>)`
+            let inner = a.strip_prefix('(').and_then(|s| s.strip_suffix(')')).unwrap_or(a);
+            let f: Vec<&str> = inner.split_whitespace().collect();
+            let ok = f.len() == 4
+                && (f[0] == "t" || f[0] == "inexact")
+                && f[1] == "t"
+                && f[2] == "t"
+                && (f[3] == "same" || f[3] == "inexact" || (f[0] == "inexact" && f[3] != "differ"));
+            if ok { None } else { Some(("(t t t same): the linted trees match, both satisfy progWfB, the two Proc.Ref runs agree".to_owned(), a.to_owned())) }
+        }),
+        signature: "inlproc:match".into(),
+        input: input.clone(),
+    });
+    // the reference semantics on each tree = the real run of that text (the C03 tie, on these programs)
+    let big_float = nums.iter().map(|c| c.1).chain(locals.iter().map(|c| c.1)).any(|d| match d.value() {
+        Some(Variant::VSingle(f)) => f.abs() >= 8388608.0 || (f.fract() != 0.0 && f.abs() >= 100.0),
+        Some(Variant::VDouble(f)) => f.abs() >= 8388608.0 || (f.fract() != 0.0 && f.abs() >= 100.0),
+        Some(Variant::VLong(l)) => l.abs() >= 8388608,
+        _ => false,
+    });
+    for (which, ast, want, fuel) in [("named", an, on, PROC_FUEL), ("inlined", ai, oi, PROC_FUEL + PROC_SLACK)] {
+        if want.outcome == "budget" {
+            continue;
+        }
+        asks.push(Ask {
+            request: format!("(proc.ref {} {})", fuel, ast),
+            expect: Box::new(move |a| match rb_harness::refrun::parse_ref_answer(a) {
+                None => Some((format!("{} {:?}", want.outcome, String::from_utf8_lossy(&want.out)), a.to_owned())),
+                Some((o, _, _)) if o == "inexact" => None,
+                Some((o, out, _)) => {
+                    // how PRINT writes floats of 8+ significant digits is C16's subject: with such constants around only
+                    // the outcome (kind, code, position) is compared
+                    if o == want.outcome && (big_float || out == want.out) {
+                        None
+                    } else {
+                        Some((format!("{} {:?}", want.outcome, String::from_utf8_lossy(&want.out)), format!("{} {:?}", o, String::from_utf8_lossy(&out))))
+                    }
+                }
+            }),
+            signature: format!("inlproc:ref-{}", which),
+            input: input.clone(),
+        });
+    }
 }
